@@ -101,6 +101,38 @@ pub fn gen(args: &Args) {
     let rd_end = last.num_days_from_ce() as i64 + 1;
     w.emit(json!({"ev": "hij", "out": "end", "rd": rd_end, "gy": 0, "gm": 0, "gd": 0,
         "y": 0, "m": 0, "d": 0, "bh": false, "wd": 0, "cwd": 0, "run": run + 1, "txt": true}));
+    // random-order access: the conversion must not depend on what was converted before (the sweep above
+    // is strictly ascending and would hide state that assumes it); each event is judged on its own
+    let seed = args.num("seed", 1) as u64;
+    let mut r = Rng::new(seed ^ 0xC17);
+    let lo = first.num_days_from_ce() as i64;
+    let hi = last.num_days_from_ce() as i64;
+    let mut cur = r.range(lo, hi);
+    let n_rand = args.num("random", 20000);
+    for i in 0..n_rand {
+        cur = match i % 6 {
+            0 => r.range(lo, hi),
+            1 => cur - 1,
+            2 => cur + r.range(340, 370),
+            3 => cur - r.range(28, 31),
+            4 => cur,
+            _ => r.range(lo, (lo + 230_000).min(hi)), // before / around the epoch
+        }
+        .clamp(lo, hi);
+        let date = NaiveDate::from_num_days_from_ce_opt(cur as i32).unwrap();
+        let cwd = date.weekday().number_from_sunday() as i64;
+        match convert(date) {
+            Ok((h, txt)) => w.emit(json!({"ev": "hijr", "out": "ret", "rd": cur,
+                "gy": date.year(), "gm": date.month(), "gd": date.day(),
+                "y": h.y, "m": h.m, "d": h.d, "bh": h.bh, "wd": h.wd, "cwd": cwd, "run": 0, "txt": txt})),
+            Err(_) => {
+                n_panic += 1;
+                w.emit(json!({"ev": "hijr", "out": "panic", "rd": cur,
+                    "gy": date.year(), "gm": date.month(), "gd": date.day(),
+                    "y": 0, "m": 0, "d": 0, "bh": false, "wd": 0, "cwd": cwd, "run": 0, "txt": false}))
+            }
+        }
+    }
     let n = w.finish();
-    println!("{}", json!({"events": n, "dates": n_dates, "panics": n_panic}));
+    println!("{}", json!({"events": n, "dates": n_dates, "panics": n_panic, "random_order": n_rand}));
 }
